@@ -34,6 +34,205 @@ type c19Case struct {
 	Content string `json:"content"` // what the message holds before expansion
 	Pos     int    `json:"pos"`     // index of the expanded message in the request stream (0 or 1)
 	Delta   int64  `json:"delta"`   // size_relative_to_limit
+	// multi-directive cases (Type = ClientStreamRequest | BidiStreamRequest): one
+	// slot per request message; Content/Pos/Delta above are unused.
+	Slots []string `json:"slots,omitempty"`
+	Trim  bool     `json:"trim,omitempty"` // trailing unmarked messages get no entry in expand_requests at all (list shorter than the stream)
+}
+
+// c19SlotAlphabet: what one request message of a multi-directive case is.
+//
+//	U    no directive (entry without size); must come out unchanged
+//	P0 P+1 P-1   marked with offset 0/+1/-1, small before expansion (needs padding)
+//	E0 E+1 E-1   marked with offset 0/+1/-1 and ALREADY exactly limit+offset bytes long before expansion (directive is a no-op)
+//	X0   marked with offset 0 and one byte too long before expansion (request_data has to shrink)
+var c19SlotAlphabet = []string{"U", "P0", "P+1", "P-1", "E0", "E+1", "E-1", "X0"} //nolint:gochecknoglobals
+
+// c19SlotContents: the content of the message in stream position i before any padding.
+var c19SlotContents = []string{"respdef+data127", "empty", "data1"} //nolint:gochecknoglobals
+
+type c19SlotSpec struct {
+	marked bool
+	delta  int64
+	msg    proto.Message // before expansion
+}
+
+func c19SlotBuild(typ string, pos int, slot string) c19SlotSpec {
+	const limit = int64(serverReceiveLimit)
+	msg := c19Build(typ, c19SlotContents[pos])
+	if slot == "U" {
+		return c19SlotSpec{msg: msg}
+	}
+	var delta int64
+	if _, err := fmt.Sscanf(slot[1:], "%d", &delta); err != nil {
+		panic("c19: bad slot " + slot)
+	}
+	spec := c19SlotSpec{marked: true, delta: delta, msg: msg}
+	pre := int64(-1) // size before expansion; -1: leave the small message
+	switch slot[0] {
+	case 'P':
+	case 'E':
+		pre = limit + delta
+	case 'X':
+		pre = limit + delta + 1
+	default:
+		panic("c19: bad slot " + slot)
+	}
+	if pre >= 0 {
+		base := int64(proto.Size(c19WithoutData(msg)))
+		l, ok := c19Reachable(base, pre)
+		if !ok || l < int64(len(c19GetData(msg))) {
+			panic(fmt.Sprintf("c19 harness: cannot build a %s of %d bytes", typ, pre))
+		}
+		data := make([]byte, l)
+		copy(data, c19GetData(msg))
+		for i := len(c19GetData(msg)); i < len(data); i++ {
+			data[i] = byte(0x50 + i%7) // distinguishable from the zero padding of the code under test
+		}
+		c19SetData(msg, data)
+		if int64(proto.Size(msg)) != pre {
+			panic(fmt.Sprintf("c19 harness: size model and proto.Size disagree: %d != %d", proto.Size(msg), pre))
+		}
+	}
+	return spec
+}
+
+// c19MultiTestCase builds a test case with one request message per slot.
+func c19MultiTestCase(tc c19Case) (*conformancev1.TestCase, []c19SlotSpec) {
+	specs := make([]c19SlotSpec, len(tc.Slots))
+	testCase := &conformancev1.TestCase{
+		Request: &conformancev1.ClientCompatRequest{
+			TestName:       "c19/multi",
+			RequestHeaders: []*conformancev1.Header{{Name: "x-c19-req", Value: []string{"h"}}},
+		},
+	}
+	entries := len(tc.Slots)
+	if tc.Trim {
+		for entries > 0 && tc.Slots[entries-1] == "U" {
+			entries--
+		}
+	}
+	for i, slot := range tc.Slots {
+		specs[i] = c19SlotBuild(tc.Type, i, slot)
+		asAny, err := anypb.New(specs[i].msg)
+		if err != nil {
+			panic(err)
+		}
+		testCase.Request.RequestMessages = append(testCase.Request.RequestMessages, asAny)
+		if i >= entries {
+			continue
+		}
+		entry := &conformancev1.TestCase_ExpandedSize{}
+		if specs[i].marked {
+			delta := int32(specs[i].delta)
+			entry.SizeRelativeToLimit = &delta
+		}
+		testCase.ExpandRequests = append(testCase.ExpandRequests, entry)
+	}
+	testCase.Request.StreamType = c19StreamType(tc.Type, specs[0].msg)
+	return testCase, specs
+}
+
+// c19JudgeMulti: several requests of one test case carry a directive. Oracle
+// (property text, per request): every marked request ends up at exactly
+// limit+offset with nothing but request_data changed - whatever the other
+// requests of the case looked like -, an unmarked one is left as it was. All
+// targets are reachable by construction, so an error is only acceptable where a
+// request has to shrink (X0: "exact or rejected").
+func c19JudgeMulti(r *rep.Report, tc c19Case, verbose bool) string {
+	const limit = int64(serverReceiveLimit)
+	testCase, specs := c19MultiTestCase(tc)
+	before := proto.Clone(testCase).(*conformancev1.TestCase) //nolint:errcheck,forcetypeassert
+	var res c19Result
+	if tc.Via == "suite" {
+		res = c19RunSuite(testCase)
+	} else {
+		res = c19RunDirect(testCase)
+	}
+	var sizes []string
+	mayShrink, marked := false, 0
+	for i, sp := range specs {
+		sizes = append(sizes, fmt.Sprintf("#%d %s: %d bytes before", i+1, tc.Slots[i], proto.Size(sp.msg)))
+		mayShrink = mayShrink || tc.Slots[i][0] == 'X'
+		if sp.marked {
+			marked++
+		}
+	}
+	describe := func(what string) string {
+		return fmt.Sprintf("%s: via=%s %s stream of %d requests, slots=%v trim=%v (U unmarked, P needs padding, E already exact, X one byte too long; number = size_relative_to_limit), limit=%d; %s",
+			what, tc.Via, tc.Type, len(tc.Slots), tc.Slots, tc.Trim, limit, strings.Join(sizes, "; "))
+	}
+	if verbose {
+		fmt.Println(describe("case"))
+		fmt.Printf("  observed: err=%v panic=%v\n", res.err, res.panicked)
+	}
+	class := fmt.Sprintf("multi/n=%d/marked=%d", len(tc.Slots), marked)
+	if res.panicked != nil {
+		r.Violate("multi:expand-panics", describe(fmt.Sprintf("panic (%v)", res.panicked)), tc)
+		return "PANIC/" + class
+	}
+	if res.err != nil {
+		if mayShrink {
+			return "error/below-unpadded/" + class
+		}
+		r.Violate("multi:reachable-rejected", describe(fmt.Sprintf("rejected although every requested size is reachable (error: %v)", res.err)), tc)
+		return "REJECTED-REACHABLE/" + class
+	}
+	after := res.after
+	if len(after.Request.RequestMessages) != len(specs) {
+		r.Violate("multi:request-count-changed", describe(fmt.Sprintf("%d request messages after expansion", len(after.Request.RequestMessages))), tc)
+		return "WRONG-RESULT/" + class
+	}
+	bad := false
+	for i, sp := range specs {
+		gotAny := after.Request.RequestMessages[i]
+		if !sp.marked {
+			if !proto.Equal(gotAny, before.Request.RequestMessages[i]) {
+				r.Violate("multi:unmarked-request-changed", describe(fmt.Sprintf("request #%d has no directive but was changed (now %d bytes)", i+1, len(gotAny.Value))), tc)
+				bad = true
+			}
+			continue
+		}
+		got, err := gotAny.UnmarshalNew()
+		if err != nil {
+			r.Violate("padding-result-unreadable", describe(fmt.Sprintf("request #%d cannot be unmarshalled: %v", i+1, err)), tc)
+			bad = true
+			continue
+		}
+		target := limit + sp.delta
+		gotSize := int64(proto.Size(got))
+		if verbose {
+			fmt.Printf("  observed: request #%d size=%d (want %d) request_data=%d bytes\n", i+1, gotSize, target, len(c19GetData(got)))
+		}
+		if gotSize != target || int64(len(gotAny.Value)) != target {
+			r.Violate("multi:marked-request-not-at-target", describe(fmt.Sprintf("request #%d is marked with size_relative_to_limit=%d, so it must have %d bytes; it has %d (Any value %d bytes) and no error was returned", i+1, sp.delta, target, gotSize, len(gotAny.Value))), tc)
+			bad = true
+		}
+		gotData := c19GetData(got)
+		got.ProtoReflect().Clear(c19DataField(got))
+		if !proto.Equal(got, c19WithoutData(sp.msg)) {
+			r.Violate("padding-changed-other-field", describe(fmt.Sprintf("request #%d: a field other than request_data differs after expansion", i+1)), tc)
+			bad = true
+		}
+		existing := c19GetData(sp.msg)
+		if target >= int64(proto.Size(sp.msg)) && !bytes.HasPrefix(gotData, existing) {
+			r.Violate("padding-changed-existing-data", describe(fmt.Sprintf("request #%d: existing request_data is not a prefix of the padded request_data", i+1)), tc)
+			bad = true
+		}
+	}
+	if tc.Via == "direct" {
+		expanded := after.Request.RequestMessages
+		after.Request.RequestMessages = before.Request.RequestMessages
+		if !proto.Equal(after, before) {
+			r.Violate("padding-changed-other-field", describe("the test case differs outside the request messages"), tc)
+			bad = true
+		}
+		after.Request.RequestMessages = expanded
+	}
+	if bad {
+		return "WRONG-RESULT/" + class
+	}
+	return "exact/" + class
 }
 
 var c19Types = []string{ //nolint:gochecknoglobals
@@ -278,6 +477,9 @@ func c19RunSuite(testCase *conformancev1.TestCase) (res c19Result) {
 // c19Judge evaluates one case. It returns the outcome class and reports
 // violations.
 func c19Judge(r *rep.Report, tc c19Case, verbose bool) string {
+	if len(tc.Slots) > 0 {
+		return c19JudgeMulti(r, tc, verbose)
+	}
 	const limit = int64(serverReceiveLimit)
 	testCase, orig := c19TestCase(tc)
 	before := proto.Clone(testCase).(*conformancev1.TestCase) //nolint:errcheck,forcetypeassert
@@ -494,7 +696,48 @@ func c19Deltas(typ, content string, thorough, suite bool) []int64 {
 	return deltas
 }
 
+// c19EnumerateMulti: streams of 2 and 3 request messages, every assignment of
+// the slot alphabet to the messages (8^2 + 8^3), for the two client-streaming
+// request types; where the stream ends with unmarked messages also the variant
+// with a shorter expand_requests list. Through the suite path: all streams of 2.
+func c19EnumerateMulti(visit func(tc c19Case) bool) bool {
+	for _, via := range []string{"direct", "suite"} {
+		for _, n := range []int{2, 3} {
+			if via == "suite" && n == 3 {
+				continue
+			}
+			total := 1
+			for i := 0; i < n; i++ {
+				total *= len(c19SlotAlphabet)
+			}
+			for _, typ := range []string{"ClientStreamRequest", "BidiStreamRequest"} {
+				for idx := 0; idx < total; idx++ {
+					slots := make([]string, n)
+					rest := idx
+					for i := n - 1; i >= 0; i-- {
+						slots[i] = c19SlotAlphabet[rest%len(c19SlotAlphabet)]
+						rest /= len(c19SlotAlphabet)
+					}
+					if !visit(c19Case{Via: via, Type: typ, Slots: slots}) {
+						return false
+					}
+					if slots[n-1] == "U" && slots[0] != "U" {
+						if !visit(c19Case{Via: via, Type: typ, Slots: slots, Trim: true}) {
+							return false
+						}
+					}
+				}
+			}
+		}
+	}
+	return true
+}
+
 func c19Enumerate(thorough bool, visit func(tc c19Case) bool) {
+	// multi-directive cases first: few, and independent of the offset sweeps
+	if !c19EnumerateMulti(visit) {
+		return
+	}
 	for _, via := range []string{"direct", "suite"} {
 		for _, typ := range c19Types {
 			for _, content := range c19Contents {
@@ -526,7 +769,9 @@ func TestVerifC19Expand(t *testing.T) {
 	r.Rule = "case = (path direct|suite, request message type (5), content (8: empty, response definition, existing request_data of 0/1/127/128 bytes, both), " +
 		"position of the expanded message in the stream, size_relative_to_limit); offsets: window round 0, windows round every target where the " +
 		"request_data length prefix grows (2^7, 2^14, 2^21; 2^28 for two messages in the thorough tier), round the unpadded size, round the size without request_data, " +
-		"round target 0, {-limit-1, -limit, MinInt32, MaxInt32} and a complete sweep of all targets 0..700 (quick) / 0..17500 (thorough); every case is a distinct " +
+		"round target 0, {-limit-1, -limit, MinInt32, MaxInt32} and a complete sweep of all targets 0..700 (quick) / 0..17500 (thorough); plus multi-directive cases: " +
+		"client-stream / bidi streams of 2 and 3 requests with every assignment of {unmarked, marked and needing padding with offset 0/+1/-1, marked and already exactly limit+offset long, " +
+		"marked and one byte too long} to the requests (8^2+8^3 per type; streams of 2 also through the suite path; shorter expand_requests list where the stream ends unmarked), every marked request judged on its own; every case is a distinct " +
 		"tuple; non-trivial = the target differs from the unpadded size (something has to be decided: pad, shrink or reject)"
 
 	if data := rep.ReplayInput(); data != nil {
@@ -561,8 +806,15 @@ func TestVerifC19Expand(t *testing.T) {
 		r.Eval(1)
 		r.Outcome(tc.Via + ":" + outcome)
 		r.Count("cases:"+tc.Via, 1)
-		unpadded := int64(proto.Size(c19Build(tc.Type, tc.Content)))
-		if limit+tc.Delta != unpadded {
+		if len(tc.Slots) > 0 {
+			r.Count("cases:multi-directive", 1)
+			for _, slot := range tc.Slots {
+				if slot != "U" { // something has to be decided for at least one request
+					r.NonTrivial("")
+					break
+				}
+			}
+		} else if unpadded := int64(proto.Size(c19Build(tc.Type, tc.Content))); limit+tc.Delta != unpadded {
 			r.NonTrivial("")
 		}
 		if k%997 == 1 {
